@@ -234,6 +234,8 @@ pub trait ErasedIter {
     /// 4 `position(|x| x.is_err())`. (`reduce`, `max_by`, ... hold the first item back until the second has
     /// been pulled, so an item could only be judged after later derivative calls: not driven.)
     fn walk(&mut self, kind: u8, cb: &mut dyn FnMut(Item));
+    /// `it.fold(..)` (kind 0) / `it.for_each(..)` (kind 1) by value
+    fn walk_owned(self: Box<Self>, kind: u8, cb: &mut dyn FnMut(Item));
     /// `it.nth(m)`
     fn nth_m(&mut self, m: usize) -> Option<Item>;
     /// `it.count()`
@@ -308,6 +310,12 @@ where
                 });
             }
             _ => self.by_ref().fold((), |(), item| cb(conv::<T::Field, D>(item))),
+        }
+    }
+    fn walk_owned(self: Box<Self>, kind: u8, cb: &mut dyn FnMut(Item)) {
+        match kind {
+            1 => (*self).for_each(|item| cb(conv::<T::Field, D>(item))),
+            _ => (*self).fold((), |(), item| cb(conv::<T::Field, D>(item))),
         }
     }
     fn nth_m(&mut self, m: usize) -> Option<Item> {
@@ -416,7 +424,7 @@ where
                 Outcome::Ok
             }
             Ok(Err(e)) => Outcome::Err(ErrClass::of(&e)),
-            Err(_) => Outcome::Panic,
+            Err(p) => panic_outcome(p),
         }
     }
 
@@ -436,8 +444,19 @@ where
         match catch_unwind(AssertUnwindSafe(move || b.solve(U::fresh()))) {
             Ok(Ok(it)) => (Outcome::Ok, Some(Box::new(it))),
             Ok(Err(e)) => (Outcome::Err(ErrClass::of(&e)), None),
-            Err(_) => (Outcome::Panic, None),
+            Err(p) => (panic_outcome(p), None),
         }
+    }
+}
+
+/// A panic caught around a builder call: the simulator's own budget abort (a builder that calls
+/// the derivative, e.g. a solve() that integrates eagerly, ran into the stub's call budget) is
+/// not a panic of the code under test.
+fn panic_outcome(p: Box<dyn std::any::Any + Send>) -> Outcome {
+    if p.downcast_ref::<crate::stub::HarnessAbort>().is_some() {
+        Outcome::Abort
+    } else {
+        Outcome::Panic
     }
 }
 
